@@ -409,6 +409,12 @@ func (ipcp *IPCPStateMachine) processConfigureOptions(opts []LCPOption) (ack, na
 				continue
 			}
 
+			// No address is assigned to this session: a peer-chosen address must not be acknowledged
+			if ipcp.config.PeerIP == nil {
+				reject = append(reject, opt)
+				continue
+			}
+
 			// Accept the requested IP
 			ipcp.negotiated.PeerIP = requestedIP
 			ack = append(ack, opt)
